@@ -17,7 +17,7 @@ SPEC = {
 }
 
 TEXT = {
-    "technique": "rapid-generated ciphertext surgery (reference peer as frame-aware sender, real peers for blind surgery) + complete single-bit enumeration of four frame sizes + native fuzzing of surgery ops",
+    "technique": "rapid-generated ciphertext surgery (reference peer as frame-aware sender, real peers for blind surgery) + complete single-bit enumeration of four frame sizes + native fuzzing of surgery ops; the victim keeps calling Read after the first error",
     "engine": "rapid + native fuzz + reference obfs4 peer + harness wire",
     "level_text": ("Exploration. The real client and the real server read streams in which one frame-level or byte-level surgery has been "
                    "performed (bit flips in length field / tag / body, insert, delete, drop / duplicate / swap / replay of whole frames, "
